@@ -212,7 +212,7 @@ fn grid(g: i32, stride: i32, ox: i32, oy: i32) -> Vec<P2> {
 
 fn tri_cases(tier: Tier) -> Vec<Case> {
     let mut v = vec![];
-    let g = grid(tier.pick(7, 8), 1, -3, -4);
+    let g = grid(tier.pick(7, 9), 1, -4, -4);
     for (ia, a) in g.iter().enumerate() {
         for (ib, b) in g.iter().enumerate() {
             for (ic, c) in g.iter().enumerate() {
@@ -262,7 +262,7 @@ fn poly_cases(tier: Tier) -> Vec<Case> {
     let g = grid(3, 1, 0, 0).into_iter().map(|(x, y)| (x * 3 - 3, y * 2 - 2)).collect::<Vec<_>>();
     let mut out = vec![Case::Poly { v: vec![] }];
     let mut level: Vec<Vec<P2>> = vec![vec![]];
-    for _ in 0..tier.pick(5, 6) {
+    for _ in 0..tier.pick(5, 7) {
         let mut next = vec![];
         for s in &level {
             for p in &g {
@@ -285,10 +285,10 @@ fn run_part(run: &mut Run) {
     let tier = run.tier;
     match run.part.as_str() {
         "triangles" => {
-            run.sweep_vec("triangles", "all vertex triples of a 7x7 grid (thorough 8x8) incl. colinear and coincident vertices, all six vertex orders per vertex set, plus a boundary-value product of larger triangles", || tri_cases(tier), check);
+            run.sweep_vec("triangles", "all vertex triples of a 7x7 grid (thorough 9x9) incl. colinear and coincident vertices, all six vertex orders per vertex set, plus a boundary-value product of larger triangles", || tri_cases(tier), check);
             run.sweep_vec("shared-edges", "all (A,B,C,D) on a 4x4 grid stride 2 (thorough 5x5) with C and D strictly on opposite sides of AB", || shared_cases(tier), check);
         }
-        "polylines" => run.sweep_vec("polylines", "all polylines with 0..=5 (thorough 6) vertices on a 3x3 grid, incl. repeated vertices and reversals, plus three long ones", || poly_cases(tier), check),
+        "polylines" => run.sweep_vec("polylines", "all polylines with 0..=5 (thorough 7) vertices on a 3x3 grid, incl. repeated vertices and reversals, plus three long ones", || poly_cases(tier), check),
         p => panic!("unknown part {p}"),
     }
 }
